@@ -79,10 +79,16 @@ func (g *Gen) run() {
 		g.inputs[k] = v.t
 	}
 	g.evalLets(c, fr.params, true)
+	for k, v := range fr.params {
+		g.topParams[k] = v // lets are visible to known-finding input classes and replay terms
+	}
 	for _, u := range c.Using {
 		if ul := g.w.DB.Lemmas[u]; ul != nil {
 			g.assumeAlways(g.lemmaStmt(ul))
 			g.usedLemmas[u] = true
+			if ul.Axiom {
+				g.assumptions["axiom "+u+" (assumed, not proved): "+ul.Body.String()] = true
+			}
 		} else {
 			g.fail("unknown lemma %s in using", u)
 		}
@@ -164,7 +170,7 @@ func (g *Gen) frameObligations(env *TEnv) {
 		if whole {
 			continue
 		}
-		if strings.HasPrefix(n, "GH_") {
+		if strings.HasPrefix(n, "GH_") && !strings.HasPrefix(g.comps[n], "(Array Int ") {
 			g.ob("frame", n, fmt.Sprintf("(= %s %s)", cur, g.entry[n]), "ghost "+n+" unchanged (not in assigns)")
 			continue
 		}
@@ -230,6 +236,17 @@ func (g *Gen) targetsOf(a *Expr, env *TEnv) []target {
 				out = append(out, target{comp: c, ref: v.t})
 			}
 			return out
+		}
+	case "idx":
+		// ghost map entry: bigval[p]
+		if a.Args[0].Op == "id" {
+			if gv, ok := g.w.DB.Ghosts[a.Args[0].Val]; ok {
+				n, _, so := g.ghostComp(gv)
+				if strings.HasPrefix(so, "(Array Int ") {
+					k := g.trans(a.Args[1], env)
+					return []target{{comp: n, ref: k.t}}
+				}
+			}
 		}
 	case "sel":
 		x := g.trans(a.Args[0], env)
